@@ -100,7 +100,7 @@ def check_via_ctor(model, rep):
                     if m.name not in ('__init__', 'to'):
                         rep.violation('C19.via-ctor', f'{m.qualname}', f'writes the private field {n.attr} outside '
                                       f'__init__/to()', f'{m.module}:{n.lineno}')
-                if isinstance(n, ast.Return) and n.value is not None and m.name.startswith('__') \
+                if isinstance(n, ast.Return) and n.value is not None and m.name.startswith('__') and m.name.endswith('__') \
                         and m.name not in ('__init__', '__repr__', '__format__') or \
                         (isinstance(n, ast.Return) and n.value is not None and m.name == 'to'):
                     sites += 1
